@@ -30,7 +30,7 @@ def gen_tree(rng, depth=0, maxdepth=4, budget=None, faults=False):
         x = rng.random()
         if depth < maxdepth and x < 0.42:
             sub = gen_tree(rng, depth + 1, maxdepth, budget, faults)
-            kids[nm] = ('u', sub) if faults and rng.random() < 0.2 else ('d', sub)
+            kids[nm] = ('u', sub) if faults and faults != 'links' and rng.random() < 0.2 else ('d', sub)
         elif faults and x < 0.55:
             kids[nm] = ('l', rng.choice(['DANGLING', 'UP1', 'UP2', 'FILE', 'DIR']))
         else:
@@ -319,13 +319,74 @@ def rel_names(node):
     return [p for p, _ in preorder(node)]
 
 
-def table_layer(rng, node, p_tree=0.5, k=2):
-    """a filter_entry layer with verdicts for a few random entries (keyed by base-relative path)"""
+def table_layer(rng, node, p_tree=0.5, k=2, prefer=()):
+    """a filter_entry layer with verdicts for a few random entries (keyed by base-relative path); `prefer`: paths (links, directories a
+    glob prunes) one of which is picked first, half of the time"""
     rels = [p for p in rel_names(node) if p != '']
     if not rels:
         return 'F'
     picks = rng.sample(rels, min(k, len(rels)))
+    prefer = [p for p in prefer if p in rels]
+    if prefer and rng.random() < 0.5:
+        picks = [rng.choice(prefer)] + [p for p in picks if p not in prefer][:max(0, k - 1)]
+        return 'F' + ','.join('%s:%s' % (hx(p), 'T' if (i == 0 or rng.random() < p_tree) else 'F') for i, p in enumerate(picks))
     return 'F' + ','.join('%s:%s' % (hx(p), 'T' if rng.random() < p_tree else 'F') for p in picks)
+
+
+def link_rels(base):
+    """base-relative paths of the symbolic links in a tree on disk"""
+    out = []
+    for dp, dns, fns in os.walk(base):
+        for nm in dns + fns:
+            q = os.path.join(dp, nm)
+            if os.path.islink(q):
+                out.append(os.path.relpath(q, base))
+    return out
+
+
+def dir_rels(node):
+    return [p for p, n in preorder(node) if p != '' and n[0] == 'D']
+
+
+_META = '?*$:<>()[]{},'
+
+
+def lit(s_):
+    return ''.join('\\' + ch if ch in _META else ch for ch in s_)
+
+
+def glob_from_tree(rng, node, tree_wildcards=True):
+    """a glob derived from an entry of the tree, so that it matches something and has literal / wildcard components a walk can
+    prune on: each component of the entry's path becomes a literal, `*`, a prefix and `*`, a `?`, an alternation or a class; a run of
+    components may be replaced by a tree wildcard"""
+    rels = [p for p, _ in preorder(node) if p != '' and '\\' not in p]
+    if not rels:
+        return '*'
+    comps = rng.choice(rels).split('/')
+    pieces = []
+    for c in comps:
+        x = rng.random()
+        if x < 0.35 or not c:
+            pieces.append(lit(c))
+        elif x < 0.5:
+            pieces.append('*')
+        elif x < 0.7:
+            pieces.append(lit(c[0]) + '*')
+        elif x < 0.8:
+            i = rng.randrange(len(c))
+            pieces.append(lit(c[:i]) + '?' + lit(c[i + 1:]))
+        elif x < 0.9:
+            pieces.append('{' + lit(c) + ',zz}')
+        elif c[0] not in '[]-\\!/' + _META:
+            pieces.append('[' + c[0] + ']' + lit(c[1:]))
+        else:
+            pieces.append(lit(c))
+    if tree_wildcards and rng.random() < 0.5:
+        i = rng.randint(0, len(pieces))
+        j = rng.randint(i, len(pieces))
+        pieces[i:j] = ['**']
+    e = '/'.join(pieces)
+    return e.replace('**/**', '**')
 
 
 NOT_PATTERNS = ['**/{.*,s*}', '**/{a*,d*}', '**/<s*:1>', '**/.git/**', '**/*.md', 'src/**', '**/a', '*.txt', '**/secret/**', 'z/**', '**/{a,b}/**', '**/.*', 'doc/**', '**/x.txt', '{a,b}/**',
@@ -376,15 +437,16 @@ def c13(res, rng, tier, replay=None):
     try:
         cases, meta = [], []
         for _ in range(ntrees):
-            base, locked = sb.new_tree(rng)
+            base, locked = sb.new_tree(rng, faults=('links' if rng.random() < 0.5 else False))
             node = resolved(base, False, locked)
+            links = link_rels(base)
             for _ in range(sizes(tier, 5, 8)):
                 nl = rng.randint(1, 3)
                 layers, tables, pure = [], [], True
                 for _ in range(nl):
                     x = rng.random()
                     if x < 0.6:
-                        l = table_layer(rng, node, 0.6, rng.randint(1, 3))
+                        l = table_layer(rng, node, 0.6, rng.randint(1, 3), prefer=links)
                         tables.append(layer_table(l))
                         layers.append(l)
                     else:
@@ -393,9 +455,11 @@ def c13(res, rng, tier, replay=None):
                         pure = False
                     layers.append('F')
                 mode = 'P'
-                if rng.random() < 0.25:
-                    mode = glob_mode(rng.choice([g_ for g_ in GLOBS if safe_glob(g_)]))
-                    pure = False
+                if rng.random() < 0.3:
+                    e = glob_from_tree(rng, node) if rng.random() < 0.5 else rng.choice(GLOBS)
+                    if safe_glob(e) and not prefix_through_link(base, e):
+                        mode = glob_mode(e)
+                        pure = False
                 c = Case(base, node, mode, 'F', '-', '-', layers[:6])
                 cases.append(c)
                 meta.append((node, tables, pure))
@@ -477,9 +541,23 @@ def c16(res, rng, tier, replay=None):
             for _ in range(3):
                 nl = rng.randint(2, 3)
                 layers = []
+                dirs_ = dir_rels(node)
                 for _ in range(nl):
-                    layers.append(table_layer(rng, node, 0.5, rng.randint(1, 3)) if rng.random() < 0.55 else 'N' + hx(rng.choice(NOT_PATTERNS)))
-                mode = 'P' if rng.random() < 0.75 else glob_mode(rng.choice(['**', '**/*.txt', '*/**', '**/a/**', '{a,b,src}/**']))
+                    layers.append(table_layer(rng, node, 0.5, rng.randint(1, 3), prefer=dirs_) if rng.random() < 0.55 else 'N' + hx(rng.choice(NOT_PATTERNS)))
+                mode = 'P'
+                if dirs_ and rng.random() < 0.3:
+                    # directed: a selective glob (it prunes directories itself) under filters that discard some of the same directories
+                    e = glob_from_tree(rng, node, tree_wildcards=False)
+                    if safe_glob(e) and _PREFIX.get(e, '') == '':
+                        mode = glob_mode(e)
+                        layers = ['F' + ','.join('%s:T' % hx(d_) for d_ in rng.sample(dirs_, min(len(dirs_), rng.randint(1, 4)))) for _ in range(nl)]
+                elif rng.random() < 0.4:
+                    # prefix-free glob walks: the first component is a pattern, so the walk starts at the base and the glob itself prunes
+                    e = rng.choice(['**', '**/*.txt', '*/**', '**/a/**', '{a,b,src}/**'])
+                    if rng.random() < 0.6:
+                        e = glob_from_tree(rng, node)
+                    if safe_glob(e) and _PREFIX.get(e, '') == '':
+                        mode = glob_mode(e)
                 start = len(cases)
                 perms = list(itertools.permutations(layers))
                 singles = [[l] for l in layers]
@@ -523,6 +601,21 @@ def c16(res, rng, tier, replay=None):
                 if keep is not None and set(ys[0]) != keep:
                     res.oracle_fail('the stack does not yield exactly the entries that every one of its layers keeps',
                                     {'case': results[start][0].describe(), 'stack': sorted(ys[0])[:30], 'intersection': sorted(keep)[:30]})
+            # model-free: over any walk (path or glob), table layers keep exactly the entries of the plain walk that have no verdict
+            # themselves and no ancestor with a tree verdict
+            c0 = results[start][0]
+            if ys and plain[1]['head'] == 'ok' and all(l.startswith('F') for l in c0.layers):
+                tables = [layer_table(l) for l in c0.layers if l != 'F']
+                base_y = [y['rel_base'] for y in plain[1]['yield'] if y['k'] == 'e']
+
+                def gone(p_):
+                    parts = p_.split('/') if p_ else []
+                    anc = ['/'.join(parts[:i]) for i in range(1, len(parts))]
+                    return any(t.get(p_) in ('T', 'F') or any(t.get(a_) == 'T' for a_ in anc) for t in tables)
+                exp = sorted(p_ for p_ in base_y if not gone(p_))
+                if sorted(ys[0]) != exp:
+                    res.oracle_fail('filter_entry layers over a walk do not keep exactly the entries without a verdict and outside discarded trees',
+                                    {'case': c0.describe(), 'missing': [p_ for p_ in exp if p_ not in ys[0]][:10], 'extra': [p_ for p_ in ys[0] if p_ not in exp][:10]})
             if len(res.samples) < 5:
                 res.sample(results[start][0].describe())
     finally:
@@ -596,7 +689,9 @@ def glob_cases(sb, rng, ntrees, per_tree, behaviours=False, faults=False):
                         dirs.append(os.path.relpath(q, base))
         for _ in range(per_tree):
             e = rng.choice(GLOBS) if rng.random() < 0.7 else g.glob()
-            if dirs and rng.random() < 0.4:
+            if rng.random() < 0.4:
+                e = glob_from_tree(rng, resolved(base, False, locked))
+            elif dirs and rng.random() < 0.4:
                 # a literal prefix that exists in this tree (escaped), followed by a variant tail
                 d = rng.choice(dirs)
                 e = ''.join('\\' + ch if ch in '?*$:<>()[]{},' else ch for ch in d) + rng.choice(['/**', '/*', '/**/*', '/*/*'])
